@@ -78,6 +78,8 @@ def rule_x1(F):
             consumed = sorted({x[0].split("::")[-1] for x in reads})
             r.inst("%s" % hir.last(name) + " #%d" % n, {"call": name, "in": fb.path, "line": t["line"], "consumed_by": consumed, "checked": bool(gated)})
             loud = any(x in ("unwrap", "expect") for x in consumed)
+            if bi in mir.back_calls(fb, defs, 0):
+                continue        # the step's result is (part of) the function's own result: every match arm yields its Result
             if not reads:
                 r.bad(fb.path, "%s result dropped" % hir.last(name), relfile(fb.file), t["line"], "the result of %s is ignored: the command would report success although this step failed" % hir.last(name))
             elif not gated and not loud and d[0] != 0:
@@ -502,6 +504,18 @@ def rule_x3(F):
     ret_local = chain_root(tail)
     sort_i = [i for i, s in enumerate(st) if any(c["m"] in ("sort", "sort_unstable") and ret_local is not None
                                                 and hir.res_local(hir.peel_refs(hir.strip(c["recv"]))) == ret_local for c in hir.nodes(s, "mcall"))]
+    if not sort_i:
+        # the collecting and sorting may be a private helper of the module (`sorted_test_names(..)`): there, too, what is sorted is what
+        # the helper returns, and get_tests takes its names from the helper
+        for hb in hir.with_callees(F, gb, depth=2, same_file=True):
+            if hb.path == gb.path or not hb.path.startswith("codegen::testing::"):
+                continue
+            hv = hir.strip(hb.hir["value"])
+            hret = chain_root(hv.get("expr"))
+            hst = hv.get("stmts") or []
+            if hret is not None and any(c["m"] in ("sort", "sort_unstable") and hir.res_local(hir.peel_refs(hir.strip(c["recv"]))) == hret for s_ in hst for c in hir.nodes(s_, "mcall")) \
+                    and any((hir.call_def(c) or "") == hb.path for c in hir.nodes(gb.hir["value"], "call")):
+                sort_i = ["in " + hir.last(hb.path)]
     r.inst("sorted", {"sort_stmt": sort_i})
     if not sort_i:
         r.bad(gb.path, "sorted", relfile(gb.file), gb.line, "the discovered test names are not sorted: the order of test runs would depend on HashMap iteration")
